@@ -247,6 +247,15 @@ def ref_values(rng, n):
         out.append(g.node())
     return out
 
+def progs_of_one_pickle(p):
+    """[p] when p is a single pickle (one STOP at the end, as far as pickletools can tell), else []"""
+    import pickletools
+    try:
+        ops = list(pickletools.genops(p))
+        return [p] if ops and ops[-1][0].name == "STOP" and ops[-1][2] == len(p) - 1 else []
+    except Exception:
+        return []
+
 @check("C18")
 def c18(res, rng, tier):
     q = tier == "quick"
@@ -258,7 +267,7 @@ def c18(res, rng, tier):
     lines, meta = [], []
     for p in progs:
         for pd, su in CONFIGS:
-            for lm in "1234":
+            for lm in "12346":
                 lines.append("dec %s %s %s %s" % (pd, su, lm, p.hex())); meta.append((p, pd, su, lm))
     impl = C.implrun(lines)
     model = C.modelrun(lines)
@@ -284,6 +293,9 @@ def c18(res, rng, tier):
                         if idx % 3 == 0: return R.User(idx)
                         if idx % 3 == 1: return R.PRef(pid)
                         raise HookError()
+                    if mode == "6":
+                        if idx % 2 == 1: raise HookError()
+                        return R.User(idx)
                     return R.User(idx) if isinstance(pid, str) else R.PRef(pid)
             import io as _io
             f = _io.BytesIO(p)
@@ -314,9 +326,13 @@ def c18(res, rng, tier):
             bad = "nil hook result did not keep the Ref"
         if not bad and lm == "2" and ok and re.search(r"\bR\( ", body):
             bad = "non-nil hook result did not replace the Ref"
-        if not bad and lm == "3":
-            # call index 2, 5, ... fails: Decode must return an error at that opcode, hook not called again for that pickle
-            pass
+        if not bad and lm == "6":
+            # every second call returns an object together with an error: the error must abort that Decode
+            # call - the calls logged for one pickle never go past a failing one, and a pickle whose last
+            # logged call failed did not return a value
+            first = parts(body)[0] if parts(body) else ""
+            if len(calls) >= 2 and first.startswith("ok ") and len(progs_of_one_pickle(p)) == 1:
+                bad = "PersistentLoad returned an object together with an error on its second call, Decode went on and returned %s" % first[:80]
         if bad:
             res.violation(bad, {"kind": "impl", "input_hex": p.hex(), "pydict": pd, "strict": su, "load_mode": lm, "observed": io_[:600],
                                 "cmd": "echo '%s' | harness/go/implrun" % lines[i][:400]})
@@ -401,7 +417,7 @@ def c18(res, rng, tier):
     res.coverage.update({
         "inverse_hook_runs": len(hlines), "inverse_hook_runs_in_theorem_fragment": in_fragment,
         "evaluations": len(lines) + len(elines) + len(dlines) + len(hlines), "distinct_nontrivial": nontriv,
-        "rule": "Decode: grammar programs containing PERSID / BINPERSID + hand-assembled ones (ids that are strings, ints, tuples, nested refs, MARK under BINPERSID, streams) x 4 configs x hook behaviours {keep (nil), replace, fail every third call, replace string ids only}; the call log is compared with CPython's own persistent_load call sequence on the same stream and with the model. Encode: object graphs with pointers to structs in every position (top level, **T and ***T chains, map values, struct fields, tuple / call arguments, inside unmapped and mapped objects), ids {string, multi-line string, tuple, int, nested tuple, ByteString, non-ASCII, None} x protocols 0..5; number of hook consultations and hits compared with the traversal, output decoded again with PersistentLoad; non-trivial = cases whose log / result matched",
+        "rule": "Decode: grammar programs containing PERSID / BINPERSID + hand-assembled ones (ids that are strings, ints, tuples, nested refs, MARK under BINPERSID, streams) x 4 configs x hook behaviours {keep (nil), replace, fail every third call, replace string ids only, return an object together with an error on every second call}; the call log is compared with CPython's own persistent_load call sequence on the same stream and with the model. Encode: object graphs with pointers to structs in every position (top level, **T and ***T chains, map values, struct fields, tuple / call arguments, inside unmapped and mapped objects), ids {string, multi-line string, tuple, int, nested tuple, ByteString, non-ASCII, None} x protocols 0..5; number of hook consultations and hits compared with the traversal, output decoded again with PersistentLoad; non-trivial = cases whose log / result matched",
         "programs": len(lines) + len(elines), "disagreements_checked": len(lines) + len(elines) + len(dlines)})
     res.samples = [{"case": lines[i][:100], "impl": impl[i][:140]} for i in range(0, len(lines), max(1, len(lines) // 4))] + \
                   [{"case": elines[j][:140], "impl": eimpl[j][:100]} for j in range(0, len(elines), max(1, len(elines) // 3))]
